@@ -276,12 +276,13 @@ Section Sub.
     | Single1 _ cov => NoDup cov
     | Single2 _ => False
     | Lig sets => NoDup (map fst sets)
+    | Multi _ _ => False
     end.
 
   Lemma pure_sub_commute : forall s g rest, sub_ok s -> inS g -> (forall x, In x rest -> inS x) ->
     apply_lookup_at (pure_sub st s) (new g) (map new rest) = option_map ren (apply_sub s g rest).
   Proof.
-    intros s g rest Hok Hg Hr. destruct s as [d cov|m|sets]; cbn [sub_ok pure_sub apply_sub] in *.
+    intros s g rest Hok Hg Hr. destruct s as [d cov|m|sets|alt m]; cbn [sub_ok pure_sub apply_sub] in *; [| | |contradiction].
     - set (ks := retained st (fun g => g) cov).
       assert (Hks : forall k, In k ks -> inS k).
       { intros k Hk. apply (retained_In n st (fun g => g) cov k HI) in Hk. destruct Hk; assumption. }
@@ -332,7 +333,7 @@ Section Sub.
     (forall x, In x rest -> inS x) -> apply_sub s g rest = Some (h, rest') ->
     inS h /\ (forall x, In x rest' -> inS x) /\ (length rest' <= length rest)%nat.
   Proof.
-    intros s g rest h rest' Hc Hg Hr H. destruct s as [d cov|m|sets]; cbn [sub_closed apply_sub] in *.
+    intros s g rest h rest' Hc Hg Hr H. destruct s as [d cov|m|sets|alt m]; cbn [sub_closed apply_sub] in *; [| | |contradiction].
     - destruct (memN g cov) eqn:E; [|discriminate]. inversion H; subst.
       split; [apply Hc; [apply memN_In; exact E|exact Hg]|]. split; [exact Hr|lia].
     - contradiction.
